@@ -13,7 +13,7 @@ func init() {
 		Run: runC13,
 		Decided: "every loop cycle of the stream handler crosses the server-mode test before reading and before dispatching, and leaves with a reset otherwise (R1); the mode field is written only by moveToServerMode/moveToClientMode (their own constant) and the constructor, read and written only under the mode lock, the movers are called only from setMode under that lock (R2); " +
 			"demotion removes a handler for every server protocol and resets streams selected by protocol membership and inbound direction, with no early exit from the loops; promotion installs the handler for every server protocol (R3); " +
-			"the reachability-to-mode table (Private: client, Public: server, Unknown: server iff auto-server) is exhaustive and always applied through setMode (R4); setMode has one caller, reached only in the automatic modes, which alone subscribe to the event (R5); the initial-mode table (R6).",
+			"the reachability-to-mode table (Private: client, Public: server, Unknown: server iff auto-server) is exhaustive and always applied through setMode (R4); setMode has one caller, reached only in the automatic modes, which alone subscribe to the event (R5); the initial-mode table (R6). Added after the seeded rounds: every condition dominating the stream reset of the client-mode switch mentions that stream itself (R3).",
 		NotDecided: "delivery and ordering of reachability events by the event bus.",
 	})
 }
